@@ -28,7 +28,7 @@ REQUIRED_FEATURES = ["merge:single-pass", "merge:two-pass", "chunks:empty", "chu
                      "chunks:repeat-pixel-within-chunk(dupcheck=False)", "pixels:all-records-zero", "input-id-dtype:uint32",
                      "input-id-dtype:uint64", "input-id-dtype:int32", "bins:extra-column-with-NaN:variable-width",
                      "history:re-chunked-in-place-from-lazy-iterator", "via:cli-cload-pairs", "cli-chunksize:1",
-                     "cli-chunksize:between", "cli-agg:sum", "cli-agg:max"]
+                     "cli-chunksize:between", "cli-agg:sum", "cli-agg:max", "overflow-across-chunks:sum-does-not-fit"]
 
 
 def plan(tier, seed):
@@ -175,6 +175,43 @@ def one_multiset(ctx, shard, k, rng):
         for p_, val in enumerate(vals):
             sc = float(int(rng.integers(-40, 40))) / 8.0
             records.append((key, val, sc, p_))
+    cid = f"u:{shard['sub']}:{k}:ovf"
+    if keys and ctx.want(cid) and k % 3 == 0:
+        # a pixel repeated across chunks whose parts fit the stored integer type while their sum does not: summing all
+        # records in memory and creating the cooler is refused (ValueError), so the unordered path may not store
+        # anything else than the exact sum either
+        sdt, parts = [(None, [2**30, 2**30]), (np.uint8, [200, 100]), (np.int16, [2**14, 2**14, 5]),
+                      (None, [2**31 - 1, 1]), (None, [2**30, 2**30 - 1])][int(rng.integers(5))]
+        kk = keys[int(rng.integers(len(keys)))]
+        others = [q for q in keys if q != kk][:3]
+        frames = [pd.DataFrame({"bin1_id": [q[0] for q in sorted(others + [kk])], "bin2_id": [q[1] for q in sorted(others + [kk])],
+                                "count": [v if q == kk else 1 for q in sorted(others + [kk])]}) for v in parts]
+        exact = {q: len(parts) for q in others}
+        exact[kk] = sum(parts)
+        fits = exact[kk] <= np.iinfo(sdt or np.int32).max
+        with ctx.case(cid, {"bt": bt, "dtype": np.dtype(sdt or np.int32).name, "parts": parts, "symm": symm}) as c:
+            c.feature("overflow-across-chunks:" + ("sum-fits" if fits else "sum-does-not-fit"))
+            out = os.path.join(ctx.newdir(), "out.cool")
+            kw = dict(ordered=False, symmetric_upper=symm, mergebuf=int([1, 2, 10**6][int(rng.integers(3))]))
+            if sdt is not None:
+                kw["dtypes"] = {"count": sdt}
+            if not symm:
+                kw["triucheck"] = False
+            try:
+                cooler.create_cooler(out, bins, iter(frames), **kw)
+                raised = None
+            except ValueError as e:
+                raised = str(e)[:80]
+            if raised is None:
+                kg, cg = read_pixels_raw(out, "/", ("count",))
+                got = dict(zip(kg, [int(v) for v in cg["count"].tolist()]))
+                c.check(got == exact, "unordered-overflow-stored-differently",
+                        f"parts {parts} of one pixel in different chunks: stored {got.get(kk)} in "
+                        f"{np.dtype(sdt or np.int32).name} without error, exact sum {exact[kk]}",
+                        lambda: {"got": sorted(got.items()), "want": sorted(exact.items())})
+            else:
+                c.check(not fits, "unordered-valid-sum-refused", f"a sum that fits the stored type was refused: {raised}")
+            c.nontrivial("ovf", repr(bt), repr(parts), repr(kk))
     total = model.fold(((r[0], r[1]) for r in records))
     total_sc = model.fold(((r[0], r[2]) for r in records))
     rowlen = max([sum(1 for kk in total if kk[0] == i) for i in range(n)] or [1])
